@@ -358,3 +358,8 @@ CHECKS["C04"]["harnesses"].append(
     {"probe": "core", "harness": "Harness_C04_subscription", "setup": "Setup_C04_subscription", "reach": ["c01.sub.compared", "c01.sub.failed"], "workers": 6, "sched": "first",
      "configs_quick": ["single"], "configs_thorough": ["single", "follow"], "quick": {"sample_models": 16, "sample_every": 7},
      "what": "a fault (error / panic) while subscribing or inside one subscription event: only that position of that event fails, the stream continues, recover hook once per panic"})
+
+CHECKS["C02"]["harnesses"].append(
+    {"probe": "core", "harness": "Harness_C02_variables", "setup": "Setup_C02_variables", "reach": ["c02.vars.coerced", "c02.vars.rejected"], "workers": 6, "sched": "first",
+     "configs_quick": ["single"], "configs_thorough": ["single", "follow", "funcsyn", "omitptr"], "quick": {"sample_models": 40},
+     "what": "requests with variables through executor.CreateOperationContext (gqlparser's variable coercion) and the generated binders: 20 cases (variable defaults with no / empty / partial variables, explicit null, json.Number and string forms, single value to list, input objects and their field defaults, missing required variables, uncoercible values): the resolver receives the coerced values or is never called"})
